@@ -45,8 +45,14 @@ def log(*a):
 # --------------------------------------------------------------------------------------
 
 def load_registry():
-    with open(REGISTRY) as f:
-        return json.load(f)
+    """props_registry.d/<PID>.json, one file per property (conflict-free editing)."""
+    reg = {}
+    d = os.path.join(VERIF, 'props_registry.d')
+    for fn in sorted(os.listdir(d)):
+        if fn.endswith('.json'):
+            with open(os.path.join(d, fn)) as f:
+                reg[fn[:-5]] = json.load(f)
+    return reg
 
 
 def load_known():
